@@ -33,7 +33,9 @@ RULE = ('cases 0..2600: the SINGLE-DAMAGE MATRIX - every alien expression (ill-t
         'assignments to string elements / constants / array variables, empty values used as values, wrong '
         'arity, misplaced return/break/try/preempt), or a small valid-looking program around one token of '
         'unusual length (integer literals of 1..9000 digits in four bases, \\u{...}/\\x escapes with many digits, long '
-        'names/strings/comments); nesting depth <= 40 - and one seeded option vector (-m in {0,8,12,16,24,32,'
+        'names/strings/comments, or many siblings at one level), or a FLAT CHAIN without textual nesting (1 + 1 + ... with '
+        '50..3000 operators, and-chains, else-if chains: judged under the interpreter\'s default recursion limit; the '
+        'RecursionError they end in beyond ~990 operators is known finding F15); textual nesting depth <= 40 - and one seeded option vector (-m in {0,8,12,16,24,32,'
         '64,-8,14400,80000}, -s in {-1,0,1,20,500,10^6,10^9}, --unchecked, --lint, with/without -o). API oracle: only a '
         'CompilerError may escape parse -> evaluate -> CodeGen -> gen_lines, get_info() renders and every span '
         'lies inside the source. CLI oracle (hidc.__main__.main() in-process on a fake file system): failure = '
@@ -49,7 +51,7 @@ RULE = ('cases 0..2600: the SINGLE-DAMAGE MATRIX - every alien expression (ill-t
         'plain valid program.')
 ASSUMPTIONS = ['the fake file system reproduces io.TextIOWrapper/BufferedWriter semantics by wrapping fake raw streams in the real io classes',
                'source files are decoded as UTF-8 (Python 3.12 in this image: UTF-8 mode / C.UTF-8)',
-               'inputs keep nesting depth <= 40; deeper nesting (Python recursion limit) is outside the property']
+               'inputs keep textual nesting depth <= 40; deeper nesting (Python recursion limit) is outside the property; flat chains are inside it (F15)']
 
 TOKEN_RE = re.compile(r'''"(?:\\.|[^"\\])*"|'(?:\\.|[^'\\])*'|//[^\n]*|[@!]?[A-Za-z_]\w*|\d\w*|==|!=|<=|>=|\?\?|[-+*/%]=|\S''')
 KEYWORDS = ['int', 'byte', 'bool', 'string', 'empty', 'const', 'if', 'else', 'while', 'for', 'try', 'undo',
